@@ -211,7 +211,8 @@ def setup():
         os.makedirs(os.path.join(COQ, "Corr"), exist_ok=True)
         coq_makefile()
         t0 = time.time()
-        rc, out = make(["all"], timeout=6000)
+        targets = ["Harness/H.vo", "Model/Obs.vo"] + [os.path.relpath(x, COQ)[:-2] + ".vo" for x in sorted(glob.glob(os.path.join(COQ, "Tie", "*.v")))]
+        rc, out = make(targets, timeout=6000)
         open(os.path.join(WORK, "setup_build.log"), "w").write(out)
         if rc != 0:
             print(out[-4000:])
